@@ -121,7 +121,7 @@ func c04toMap(m *meta.Module, sc *c15schema, kids []*gen.SNode, body []*gen.DNod
 }
 
 func C04(c *core.Ctx) {
-	c.Rule = "generated schemas with every built-in leaf type (incl. 64-bit extremes, decimal64, empty, enum, bits, identityref, union, leaf-lists), defaults, containers, keyed lists, nodes of an imported module × conforming trees; (a) export of the tree from the reference store, from reflection over maps and from nodeutil.Node into a fresh reference store, compared with the Lean editor model and the Spec 'data + defaults of created nodes'; (b) WriteJSON in 4 configurations (compact/pretty × qualified/unqualified) → the library's own JSON reader → upsert into a fresh store, compared with the original. non-trivial = tree with ≥1 list entry or nested container; distinct by (schema, tree, source, configuration)"
+	c.Rule = "generated schemas with every built-in leaf type (incl. 64-bit extremes, decimal64, empty, enum, bits, identityref, union, leaf-lists), defaults, containers, keyed lists, nodes of an imported module × conforming trees; (a) export of the tree from the reference store, from reflection over maps and from nodeutil.Node into a fresh reference store, compared with the Lean editor model and the Spec 'data + defaults of created nodes'; (b) WriteJSON in 4 configurations (compact/pretty × qualified/unqualified) → the library's own JSON reader → upsert into a fresh store, compared with the original; the typed schemas contain leafrefs (to an enumeration, union, bits, identityref and string leaf; as leaves and leaf-lists), enumerations with names that need escaping or look like numbers; the first schema of every run holds every type once as leaf and once as leaf-list. non-trivial = tree with ≥1 list entry or nested container; distinct by (schema, tree, source, configuration)"
 	c.Assumptions = append(c.Assumptions,
 		"leaf values are compared in the canonical text the library prints for them (val.Value.String()), per element for leaf-lists",
 		"reflection-backed sources hold the Go values the library itself stores (Value() of the typed value)")
